@@ -827,9 +827,18 @@ SOURCES = [
     ("env", re.compile(r"^std::env::(var|var_os|vars|vars_os)$"), ("output",)),
     ("temp-name", re.compile(r"^<?tempfile::"), ("output",)),
     # location of the compiler installation / working directory: constant across runs on one machine → recorded only
-    ("path-of-installation", re.compile(r"^std::env::(current_exe|current_dir|temp_dir|home_dir)$"), ()),
+    ("path-of-installation", re.compile(r"^std::env::(current_exe|temp_dir|home_dir)$"), ()),
+    # the property compares builds made "from different working directories": the working directory must not reach
+    # an emitted artefact (source paths are stored in the package and in the stack-trace string table)
+    ("working-directory", re.compile(r"^std::env::current_dir$"), ("output", "subprocess")),
 ]
 TEMP_TY = re.compile(r"NamedTempFile|TempPath|TempDir")
+# Frozen, one reason each: (function, source kind) pairs whose use of the value is an *input*, not ambient state
+R2_EXCEPTIONS = {
+    ("dora::driver::test::command_test", "working-directory"):
+        "`dora test` without a path argument: the working directory is the documented default of the omitted package "
+        "path (TestArgs::path, 'default: current directory') — it names the sources, exactly as passing the path would",
+}
 
 
 def rule_r2(chk, F, cg, ef, reach):
@@ -885,6 +894,9 @@ def rule_r2(chk, F, cg, ef, reach):
                 r.observe("%s %s in %s spreads widely (e.g. source-file paths stored in the package); recorded only, "
                           "not a per-process value" % (kind, short(callee), short(p)))
             if not live:
+                continue
+            if (p, kind) in R2_EXCEPTIONS:
+                r.observe("%s in %s: accepted — %s" % (kind, short(p), R2_EXCEPTIONS[(p, kind)]))
                 continue
             crate = p.split("::", 1)[0]
             bad = sorted((h for h in hits if h[0] in bad_for[kind]),
